@@ -140,17 +140,63 @@ theorem ctl_del_removes (k : Kernel) (fd o : Nat) (m : Mask) (ow : Option Nat) (
   · simp only [hh]; intro e he hc
     apply hh; simp [Kernel.hasEnt]; exact ⟨e, he, hc.1, hc.2⟩
 
-/-- what is still missing for the full statement: the kernel-side invariant
-(`events ≠ 0 → entry (description at fd, fd) with mask events`, entries only owned by live handles) carried
-through every operation.  The correspondence check compares the model's interest list with the real
-kernel's at every `epoll_pwait`. -/
+/-- **kernel_sync_at_block**, kernel half, direct `epoll_ctl` mode, at full strength relative to the
+kernel-side invariant `KCore` (Lemmas/IoWatchLemmas): in the state in which `uv__io_poll` calls `epoll_pwait`
+(watcher queue applied), for every watched descriptor the kernel's interest map has the entry of
+(open file description at fd, fd) with exactly the requested mask, and every kernel entry sits on a
+descriptor that still refers to the same description and belongs to the one live — not closed —
+handle of that descriptor (a registered watcher, or a stopped-but-open one: interpretation (iii)). -/
+theorem kernel_sync_at_block_direct {s : St} (i : SInv s) (c : KCore s) (hr : s.ring = false) :
+    (∀ fd id, watcherAt (flushAll (applyQueue s)) fd = some id →
+      ∃ o, (flushAll (applyQueue s)).k.ofdAt fd = some o ∧
+        (flushAll (applyQueue s)).k.maskAt o fd = some (getW (flushAll (applyQueue s)) id).pevents) ∧
+    (∀ o fd, (flushAll (applyQueue s)).k.maskAt o fd ≠ none →
+      (flushAll (applyQueue s)).k.ofdAt fd = some o ∧
+      ∃ id, id < (flushAll (applyQueue s)).ws.length ∧ (getW (flushAll (applyQueue s)) id).fd = fd ∧
+        (getW (flushAll (applyQueue s)) id).closing = false) := by
+  have cb := c.applyQueue hr
+  have tb := told_at_block i
+  have ib : SInv (flushAll (applyQueue s)) :=
+    i.reach (Reach.trans (reach_applyQueue s) (same_flushAll _).reach)
+  generalize flushAll (applyQueue s) = b at cb tb ib
+  constructor
+  · intro fd id h
+    obtain ⟨hl, hfd⟩ := ib.reg fd id h
+    have hev := tb.2 fd id h
+    have hne : (getW b id).events ≠ Mask.none := by rw [hev]; exact ib.regReq fd id h
+    obtain ⟨o, a1, a2⟩ := cb.armed id hl hne
+    rw [hfd] at a1 a2
+    exact ⟨o, a1, by rw [a2, hev]⟩
+  · intro o fd h
+    obtain ⟨a, id, b1, b2, b3, _⟩ := cb.owned o fd h
+    exact ⟨a, id, b1, b2, b3⟩
+
+/-- `KCore` holds after loop init and is preserved by the primitives every operation is made of:
+`uv__io_start` under the one-watcher-per-fd guard, `uv__io_stop`, `uv__platform_invalidate_fd` on a
+descriptor with no armed watcher (which also leaves *no* entry for that descriptor number, whichever
+description it belongs to), marking the handle closed/clean afterwards, creating a handle, and the
+direct-mode queue application. -/
+theorem kcore_primitives :
+    (∀ ring internal nw, KCore (init ring internal nw)) ∧
+    (∀ (s : St) (id : Nat) (m : Mask), KCore s → id < s.ws.length → m ≠ Mask.none → (getW s id).closing = false →
+      (s.k.ofdAt (getW s id).fd).isSome = true →
+      (watcherAt s (getW s id).fd = none ∨ watcherAt s (getW s id).fd = some id) → KCore (ioStart s id m)) ∧
+    (∀ (s : St) (id : Nat) (m : Mask), KCore s → SInv s → KCore (ioStop s id m)) ∧
+    (∀ (s : St) (fd : Nat), KCore s →
+      (∀ id, id < s.ws.length → (getW s id).fd = fd → (getW s id).events = Mask.none) →
+      KCore (invalidate s fd) ∧ ∀ o, (invalidate s fd).k.maskAt o fd = none) ∧
+    (∀ (s : St), KCore s → s.ring = false → KCore (flushAll (applyQueue s))) :=
+  ⟨kcore_init, fun _ id m c hid hm hcl ho hw => c.start id m hid hm hcl ho hw,
+   fun _ id m c i => c.stop i id m, fun _ fd c h => c.invalidate fd h, fun _ c hr => c.applyQueue hr⟩
+
+/-- what is still missing for the unconditional statement: `KCore` carried through the composite
+operations (`uv_poll_init`'s probe, `closefd`/`openfd`/`dup` under the close discipline, callbacks) — the
+primitives they consist of are covered by `kcore_primitives` — and through the io_uring ctl ring
+(`prep`/`flushOnce`), plus the ring ≡ direct equality of the interest map.  The correspondence check
+compares the model's interest list with the real kernel's at every `epoll_pwait`, ring on and off. -/
 def kernel_sync_full_statement : Prop :=
   ∀ (sc : Script) (ring : Bool) (internal nw : Nat) (prog : List Cmd),
-    let s := flushAll (applyQueue (exec sc (init ring internal nw) prog))
-    s.aborted = false →
-    (∀ fd id, watcherAt s fd = some id →
-      ∃ o, s.k.ofdAt fd = some o ∧ ∃ e ∈ s.k.ents, e.ofd = o ∧ e.fd = fd ∧ e.mask = (getW s id).pevents) ∧
-    (∀ e ∈ s.k.ents, ∀ id, e.owner = some id → (getW s id).closing = false)
+    KCore (exec sc (init ring internal nw) prog)
 
 /-- **negative result** (model agrees with the code, replayed on the real library and kernel by
 `corpus/C14-findings/second_handle.txt`): without the "one handle per descriptor" discipline the
